@@ -674,10 +674,7 @@ def _worker(task):
 
 
 def run_tasks(tasks, workers=None):
-    workers = workers or min(16, os.cpu_count() or 4)
-    ctx = multiprocessing.get_context("fork")
-    with ctx.Pool(workers) as pool:
-        return pool.map(_worker, tasks, chunksize=1)
+    return common.pmap(_worker, tasks, workers)
 
 
 RULES = {
